@@ -279,7 +279,7 @@ def shrink(mod, fail: dict, bucket: str, budget_s: float, case_timeout: float) -
             if time.time() > end:
                 break
 
-            if len(json.dumps(cand, default=repr)) >= len(json.dumps(case, default=repr)):
+            if not getattr(mod, 'SHRINK_TRUSTED', False) and len(json.dumps(cand, default=repr)) >= len(json.dumps(case, default=repr)):
                 continue
 
             try:
